@@ -5,10 +5,12 @@ CONSTANTS
   Closer = "c"
   Tables = {"t1"}
   LocSeq <- Loc2
-  FreeLocs = TRUE
+  FreeLocs = FALSE
   BatchSizes = {1, 2, 3}
   PerIns = 2
   PerFl = 1
-  LockScope = "code"
+  LockScope = "fix"
+  SigMode = "proc"
 VIEW View
-INVARIANTS TypeOK OnlyRacesHurt NeverTwice LocInternOK TxnOwner EmitCase
+INVARIANTS TypeOK AllPersistedOnce NoCrash FlushHoldsLock NeverTwice LocInternOK TxnOwner EmitCase
+PROPERTIES Terminates Refines
